@@ -410,6 +410,9 @@ func (c *vC12) checkRanges(b *vBlock, otherRoot []byte, owns func(key string) bo
 			c.st.hist("range_runs", "boundary-classes")
 		}
 		for _, se := range ranges {
+			if c.expired() {
+				return
+			}
 			s, e := se[0], se[1]
 			var res *GetRangeResult
 			var err error
